@@ -52,10 +52,10 @@ type Config struct {
 
 type Searcher struct {
 	Config
-	counts  map[rules.Pos]int
-	Nodes   int
-	Over    bool
-	DrawMet bool // a repetition or fifty-move draw was met inside the tree (C11's precondition)
+	counts    map[rules.Pos]int
+	Nodes     int
+	Over      bool
+	DrawMet   bool // a repetition or fifty-move draw was met inside the tree (C11's precondition)
 	MateMixed bool // probe: a node whose children are mated-in-k with >=2 distinct k
 }
 
